@@ -3,7 +3,7 @@ the real library and project the observation into the specification's vocabulary
 Deliberately dumb: attribute reads and constructor calls only."""
 from __future__ import annotations
 
-from .core import outcome, octs, after_pack, decoded, live, scramble, rxbuf, owned, enum_arg, assign_grown
+from .core import outcome, octs, after_pack, decoded, live, scramble, rxbuf, owned, enum_arg, assign_grown, side_pack
 from .probe import fresh
 from .probe import decode_other, poison, twin
 
@@ -292,9 +292,20 @@ def op_tc_rt(a):
         if a.get("via") == "bytearray":
             dec.to_space_packet().pack()          # the view of a decoded object must leave it as it is
         decode_other("tc", PusTc.unpack)
-        return {"octets": octs(raw), "plen": plen, "sp": octs(sp), "crcok": bool(check_pus_crc(bytes(raw))),
-                "dec": tc_proj(dec), "dplen": dec.packet_len, "eq": bool(dec == tc) and bool(tc == dec),
-                "keep": keep, "repack": octs(dec.pack())}
+        out = {"octets": octs(raw), "plen": plen, "sp": octs(sp), "crcok": bool(check_pus_crc(bytes(raw))),
+               "dec": tc_proj(dec), "dplen": dec.packet_len, "eq": bool(dec == tc) and bool(tc == dec),
+               "keep": keep, "repack": octs(dec.pack())}
+        # afterwards the header objects the telecommand hands out are changed in place (they are public, mutable objects): what
+        # it packs then is the encoding of what its own getters report (universal law, recorded as a side event)
+        try:
+            tc.sp_header.seq_count = (tc.sp_header.seq_count + 1) % 16384
+            tc.sp_header.packet_id.apid = (tc.apid + 3) % 2048
+            tc.pus_tc_sec_header.source_id = (tc.source_id + 1) % 65536
+            tc.pus_tc_sec_header.subservice = (tc.subservice + 1) % 256
+        except Exception:  # noqa
+            pass
+        side_pack("tc", tc_proj, tc)
+        return out
     return outcome(run)
 
 
@@ -356,10 +367,21 @@ def op_tm_rt(a):
             _inner_tm(dec).to_space_packet().pack()
         decode_other("srv17" if via == "srv17" else "tm", lambda b: cls.unpack(b, 7))
         eq = bool(_inner_tm(dec) == _inner_tm(tm)) and bool(_inner_tm(tm) == _inner_tm(dec))
-        return {"keep": keep, "octets": octs(raw), "plen": plen, "sp": octs(sp), "crcok": bool(check_pus_crc(bytes(raw))),
-                "dec": tm_proj(_inner_tm(dec)), "dplen": _inner_tm(dec).packet_len, "eq": eq,
-                "repack": octs(dec.pack()),
-                "stampat": octs(raw[PUS_TM_TIMESTAMP_OFFSET:PUS_TM_TIMESTAMP_OFFSET + tsl])}
+        out = {"keep": keep, "octets": octs(raw), "plen": plen, "sp": octs(sp), "crcok": bool(check_pus_crc(bytes(raw))),
+               "dec": tm_proj(_inner_tm(dec)), "dplen": _inner_tm(dec).packet_len, "eq": eq,
+               "repack": octs(dec.pack()),
+               "stampat": octs(raw[PUS_TM_TIMESTAMP_OFFSET:PUS_TM_TIMESTAMP_OFFSET + tsl])}
+        try:
+            t = _inner_tm(tm)
+            t.sp_header.seq_count = (t.sp_header.seq_count + 1) % 16384
+            t.sp_header.packet_id.apid = (t.apid + 3) % 2048
+            t.pus_tm_sec_header.message_counter = (t.pus_tm_sec_header.message_counter + 1) % 65536
+            t.pus_tm_sec_header.dest_id = (t.pus_tm_sec_header.dest_id + 1) % 65536
+            if via != "srv17":
+                side_pack("tm", tm_proj, t)
+        except Exception:  # noqa
+            pass
+        return out
     return outcome(run)
 
 
